@@ -243,6 +243,11 @@ func minimalInvalidations(a cors.Config) []cors.Config {
 	add(func(c *cors.Config) { c.ResponseHeaders = append(c.ResponseHeaders, "Set-Cookie") })
 	add(func(c *cors.Config) { c.PrivateNetworkAccess, c.PrivateNetworkAccessInNoCORSModeOnly = true, true })
 	add(func(c *cors.Config) { c.Credentialed = !c.Credentialed })
+	add(func(c *cors.Config) { c.PrivateNetworkAccess = true })
+	add(func(c *cors.Config) { c.PrivateNetworkAccessInNoCORSModeOnly = true })
+	add(func(c *cors.Config) { c.MaxAgeInSeconds = -1; c.Methods = append(c.Methods, "CONNECT") })
+	add(func(c *cors.Config) { c.MaxAgeInSeconds = -1; c.Origins = append(c.Origins, "https://example.com/") })
+	add(func(c *cors.Config) { c.MaxAgeInSeconds = -1; c.PreflightSuccessStatus = 199 })
 	return out
 }
 
@@ -262,6 +267,8 @@ func famHistWant(want string) family {
 					ExtraConfig: cors.ExtraConfig{DangerouslyTolerateInsecureOrigins: true, DangerouslyTolerateSubdomainsOfPublicSuffixes: true}}
 			case 2:
 				a = cors.Config{Origins: []string{"http://example.com:6060"}, ExtraConfig: cors.ExtraConfig{PrivateNetworkAccessInNoCORSModeOnly: true, DangerouslyTolerateInsecureOrigins: true}}
+			case 3: // an insecure origin that is fine as long as neither credentials nor PNA are switched on
+				a = cors.Config{Origins: []string{"http://example.com", "https://example.org"}, Methods: []string{"PUT"}, RequestHeaders: []string{"X-Foo"}}
 			}
 			inv1, inv2 := genInvalidConfig(r), genInvalidConfig(r)
 			inv2.Origins = append([]string{}, a.Origins...) // partly valid, differs from the current state
@@ -282,9 +289,15 @@ func famHistWant(want string) family {
 				{kind: "reconf", cfg: &a, label: "valid"}, {kind: "reconf", cfg: &bcfg, label: "valid"},
 				{kind: "reconf", cfg: &inv1, label: "invalid"}, {kind: "reconf", cfg: &inv2, label: "invalid"}}
 			// minimal invalidations: the current configuration A with exactly one thing made invalid
-			for _, mi := range minimalInvalidations(a) {
-				mi := mi
+			exhAlphabet := append([]opT{}, alphabet...)
+			mis := minimalInvalidations(a)
+			r.Shuffle(len(mis), func(i, j int) { mis[i], mis[j] = mis[j], mis[i] })
+			for k := range mis {
+				mi := mis[k]
 				alphabet = append(alphabet, opT{kind: "reconf", cfg: &mi, label: "invalid"})
+				if k < 3 {
+					exhAlphabet = append(exhAlphabet, opT{kind: "reconf", cfg: &mi, label: "invalid"})
+				}
 			}
 			var rec func(prefix []opT)
 			run := func(ops []opT, init *cors.Config) {
@@ -340,11 +353,15 @@ func famHistWant(want string) family {
 				if len(prefix) == exh {
 					return
 				}
-				for _, op := range alphabet {
+				ab := exhAlphabet
+				if len(prefix) == 0 {
+					ab = alphabet // every minimal invalidation at least as a one-step history
+				}
+				for _, op := range ab {
 					rec(append(append([]opT{}, prefix...), op))
 				}
 			}
-			if s < 3 && (tier != "thorough" || s < 2) {
+			if s < 4 && (tier != "thorough" || s < 2) {
 				rec(nil)
 			}
 			for k := 0; k < 25; k++ {
@@ -371,6 +388,8 @@ func famRoundtrip(o *Out, r R, tier string) {
 	special := []cors.Config{
 		{Origins: []string{"http://[::1]:9090"}},
 		{Origins: []string{"http://[2001:db8::1]", "http://127.0.0.1:*", "https://a.com."}},
+		{Origins: []string{"http://[::1]:9090", "http://[fe80::1]:9090", "http://[2001:db8::1]", "http://[2001:db8::21]:*"}},
+		{Origins: []string{"http://example.com"}, ExtraConfig: cors.ExtraConfig{PrivateNetworkAccessInNoCORSModeOnly: true, DangerouslyTolerateInsecureOrigins: true}},
 		{Origins: []string{"https://foo.example.com", "https://*.example.com"}},
 		{Origins: []string{"https://*.example.com", "https://*.example.com"}},
 		{Origins: []string{"https://a.com:1", "https://a.com:*"}},
@@ -552,6 +571,16 @@ func famPattern(o *Out, r R, tier string) {
 	emit("defect", "too-long", "https://"+strings.Repeat("a", 64)+".com")
 	emit("defect", "too-long", maxScheme+"c://example.com")
 	emit("defect", "too-long", "https://*."+longHost(252, 'a'))
+	for _, h := range []string{strings.Repeat("a", 64), "example." + strings.Repeat("a", 64), "www.example." + strings.Repeat("b", 64), "example." + strings.Repeat("a", 200), strings.Repeat("a", 64) + "."} {
+		emit("defect", "long-last-label", "https://"+h)
+		emit("defect", "long-last-label", "http://"+h+":8080")
+		emit("defect", "long-last-label", "https://*."+h)
+	}
+	for _, d := range []string{longHost(251, 'a'), longHost(248, 'b'), longHost(250, 'c')} { // wildcard before a near-maximal domain, with a port
+		emit("valid", "wildcard-max-port", "https://*."+d+":8443")
+		emit("valid", "wildcard-max-port", "https://*."+d+":*")
+		emit("valid", "wildcard-max-port", "https://*."+d[:len(d)-3]+":65535")
+	}
 	for _, d := range originsDefect {
 		if d == "https://xn--a.com" || d == "https://[::1]" || d == "https://127.0.0.1" || d == "http://1.2.3" || d == "https://*." || d == "https://*" {
 			emit("grey", "corpus", d)
